@@ -654,6 +654,21 @@ impl World {
             control_conflict: false,
         };
         self.run_step(&step, forms, out).await?;
+        // observation (not asserted): a valid signature followed by junk
+        {
+            let req = RawRequest::new(Method::GET, routes::STATUS);
+            let mut raw = self.a.device.sign(&req.signed_bytes()).to_bytes().to_vec();
+            raw.extend_from_slice(&[0u8; 8]);
+            let cred = Credential {
+                authorization: Some(bearer(&bs58::encode(&raw).into_string())),
+                account_header: Some(self.a.account_id.to_string()),
+            };
+            let r = hb(send(&self.client, &self.server, &req, &cred).await, "send")?;
+            out.note(format!(
+                "observation: token = base58(valid signature of a trusted device || 8 zero bytes) -> {} (the decoder reads 64 bytes and ignores the rest; still a signature of a trusted device over the right bytes)",
+                r.status
+            ));
+        }
 
         let step = Step {
             name: "HEAD /sync/account",
@@ -1239,6 +1254,178 @@ async fn revoke_d2(w: &mut World, via: RevokeVia, out: &mut Outcome) -> Res<()> 
     Ok(())
 }
 
+/// Account B revokes its own (only) device and syncs that. Afterwards the
+/// account has no trusted device: every request signed by the former device
+/// must be refused (an empty device set must not mean "anyone").
+async fn all_devices_revoked(w: &mut World, case: &Case, out: &mut Outcome) -> Res<()> {
+    use http::Method;
+    let b_id = w.b.account_id;
+    let key = w.b.device.clone();
+    let folder = w.b.default_folder;
+    let scan = ScanRequest {
+        log_type: EventLogType::Account,
+        limit: 8,
+        offset: 0,
+    };
+    let diff = DiffRequest {
+        log_type: EventLogType::Device,
+        from_hash: None,
+    };
+    let scan_body = hb(scan.encode().await.map_err(|e| e.to_string()), "encode")?;
+    let diff_body = hb(diff.encode().await.map_err(|e| e.to_string()), "encode")?;
+    let files_body = hb(
+        sos_protocol::transfer::FileSet(Default::default())
+            .encode()
+            .await
+            .map_err(|e| e.to_string()),
+        "encode",
+    )?;
+    let reads: Vec<(&'static str, RawRequest)> = vec![
+        ("GET /sync/account/status", RawRequest::new(Method::GET, routes::STATUS)),
+        ("HEAD /sync/account", RawRequest::new(Method::HEAD, routes::ACCOUNT)),
+        ("GET /sync/account", RawRequest::new(Method::GET, routes::ACCOUNT)),
+        ("GET /sync/account/events", RawRequest::new(Method::GET, routes::EVENTS).with_signed_body(scan_body)),
+        ("POST /sync/account/events", RawRequest::new(Method::POST, routes::EVENTS).with_signed_body(diff_body)),
+        (
+            "POST /sync/files",
+            RawRequest::new(Method::POST, routes::FILES)
+                .with_unsigned_body(files_body, sos_protocol::constants::MIME_TYPE_PROTOBUF),
+        ),
+    ];
+    // controls while the device is still trusted
+    for (name, req) in &reads {
+        let r = hb(send_signed(&w.client, &w.server, req, &key, &b_id).await, "send")?;
+        out.controls += 1;
+        if !r.accepted() {
+            return Err(Failure::new(
+                format!("harness/control-refused/{name} (account B)"),
+                format!("HARNESS BUG: correctly signed {name} of account B returned {}", r.status),
+            ));
+        }
+    }
+    // revoke the only device and sync (this sync is signed by the device
+    // while it is still trusted: control for PATCH /sync/account)
+    let pk = key.public_key();
+    hb(w.b.account.revoke_device(&pk).await.map_err(|e| e.to_string()), "revoke_device")?;
+    let r = hb(
+        send_signed(&w.client, &w.server, &RawRequest::new(Method::GET, routes::STATUS), &key, &b_id).await,
+        "send",
+    )?;
+    let remote = hb(decode_status(r.body).await, "decode status")?;
+    let (_, body) = hb(w.b.sync_packet_body(remote.clone()).await, "sync_packet_body")?;
+    let before = w.snap().await?;
+    let r = hb(
+        send_signed(
+            &w.client,
+            &w.server,
+            &RawRequest::new(Method::PATCH, routes::ACCOUNT).with_signed_body(body),
+            &key,
+            &b_id,
+        )
+        .await,
+        "send",
+    )?;
+    let mut snap = w.snap().await?;
+    out.controls += 1;
+    if !r.is_2xx() {
+        return Err(Failure::new(
+            "harness/control-refused/PATCH /sync/account (account B revokes itself)",
+            format!("status {}", r.status),
+        ));
+    }
+    if snap != before {
+        out.control_changed += 1;
+    }
+    let devices = snap
+        .accounts
+        .get(&b_id.to_string())
+        .map(|v| v.devices.clone())
+        .unwrap_or_default();
+    out.note(format!(
+        "all-devices-revoked: after the sync the server lists {} trusted device(s) for account B",
+        devices.len()
+    ));
+    let effective = devices.is_empty();
+    // a pending change makes the mutating bodies state-changing
+    hb(w.b.add_note(&folder, "after revocation", &case.changes[0].text).await, "add_note")?;
+    let remote = {
+        // server status from the backend (no trusted device can ask for it)
+        let backend = w.server.backend.read().await;
+        let accts = backend.accounts();
+        let accts = accts.read().await;
+        let acct = accts.get(&b_id).ok_or_else(|| Failure::new("harness/no-account-b", "account B missing"))?;
+        let acct = acct.read().await;
+        use sos_sync::SyncStorage;
+        acct.sync_status().await.map_err(|e| Failure::new("harness/status", e.to_string()))?
+    };
+    let (_, sync_body) = hb(w.b.sync_packet_body(remote.clone()).await, "sync_packet_body")?;
+    let fstate = remote.folders.get(&folder).cloned().ok_or_else(|| Failure::new("harness/folder", "no folder"))?;
+    let (_, patch_body) = hb(
+        w.b.patch_request_body(EventLogType::Folder(folder), fstate.0, fstate.1).await,
+        "patch_request_body",
+    )?;
+    let update_body = hb(w.b.update_set_body(&[folder], true).await, "update_set_body")?;
+    let create_body = hb(w.b.create_set_body().await, "create_set_body")?;
+    use sha2::{Digest, Sha256};
+    let content = [&case.file[..], b"-b"].concat();
+    let fname = hex::encode(Sha256::digest(&content));
+    let sid = uuid::Builder::from_random_bytes(case.key_seed[..16].try_into().unwrap()).into_uuid();
+    let fpath = format!("{}/{}/{}/{}", routes::FILE, folder, sid, fname);
+    let mut ws = RawRequest::new(Method::GET, routes::CHANGES);
+    ws.headers = vec![
+        ("connection", "Upgrade".to_string()),
+        ("upgrade", "websocket".to_string()),
+        ("sec-websocket-version", "13".to_string()),
+        ("sec-websocket-key", "dGhlIHNhbXBsZSBub25jZQ==".to_string()),
+    ];
+    let mut all = reads;
+    all.extend(vec![
+        ("PATCH /sync/account", RawRequest::new(Method::PATCH, routes::ACCOUNT).with_signed_body(sync_body)),
+        ("PATCH /sync/account/events", RawRequest::new(Method::PATCH, routes::EVENTS).with_signed_body(patch_body)),
+        ("POST /sync/account", RawRequest::new(Method::POST, routes::ACCOUNT).with_signed_body(update_body)),
+        (
+            "PUT /sync/file/{vault}/{secret}/{name}",
+            RawRequest::new(Method::PUT, &fpath).with_unsigned_body(content, "application/octet-stream"),
+        ),
+        ("GET /sync/changes (websocket)", ws),
+        ("PUT /sync/account", RawRequest::new(Method::PUT, routes::ACCOUNT).with_signed_body(create_body)),
+        ("DELETE /sync/account", RawRequest::new(Method::DELETE, routes::ACCOUNT)),
+    ]);
+    for (name, req) in &all {
+        let r = hb(send_signed(&w.client, &w.server, req, &key, &b_id).await, "send")?;
+        let after = w.snap().await?;
+        let mut info = CaseInfo::default();
+        info.nontrivial = effective;
+        info.class(format!("route/{name}"));
+        info.class("form/revoked-last-device");
+        info.class("config/none");
+        info.class("phase/all-devices-revoked");
+        info.class(format!("answer/revoked-last-device/{}", r.status));
+        out.records.push(ReqRecord {
+            hash: hash_of(&(w.case_hash, "all-devices-revoked", name)),
+            info,
+        });
+        if r.accepted() {
+            out.fail(
+                format!("accepted/revoked-last-device/{name}"),
+                format!(
+                    "{name} signed by the former only device of account B, after that device was revoked and the revocation synced (server lists {} device(s)), was accepted with {}",
+                    devices.len(),
+                    r.status
+                ),
+            );
+        }
+        if after != snap {
+            out.fail(
+                format!("state-changed/revoked-last-device/{name}"),
+                format!("{name} by a revoked device returned {} and changed the server: {}", r.status, snap.diff(&after)),
+            );
+            snap = after;
+        }
+    }
+    Ok(())
+}
+
 async fn restart(w: &mut World) -> Res<()> {
     let opts = ServerOptions {
         data_dir: Some(w.server.data_dir.clone()),
@@ -1274,6 +1461,8 @@ async fn routes_case(case: &Case, case_hash: u64, out: &mut Outcome) -> Res<()> 
     restart(&mut w).await?;
     w.phase = "after-revocation-and-restart";
     w.run_table(case, 2, &Form::REDUCED, out).await?;
+    w.phase = "all-devices-revoked";
+    all_devices_revoked(&mut w, case, out).await?;
     let World { server, .. } = w;
     let _ = server.shutdown().await;
     drop_kept_dirs();
@@ -1686,7 +1875,12 @@ fn run(shard: &Shard, rep: &mut Report) {
             if !s.2 {
                 s.0.extend(out.records);
                 for n in out.notes {
-                    if !s.1.contains(&n) {
+                    let everywhere = n.starts_with("observation:")
+                        || n.starts_with("all-devices-revoked:")
+                        || n.starts_with("access-file controls");
+                    if (!everywhere || shard.index == 0 || shard.index + 1 == shard.count)
+                        && !s.1.contains(&n)
+                    {
                         s.1.push(n);
                     }
                 }
@@ -1716,6 +1910,6 @@ fn replay(shard: &Shard, sub: &str, case: &Value) -> CheckResult {
     } else {
         Mode::Routes
     };
-    let (_, failures, _) = run_case(&case, mode);
+    let (_, failures, _) = with_silenced_stdout(|| run_case(&case, mode));
     choose_failure(shard, failures)
 }
